@@ -105,6 +105,22 @@ SEEDS = {
            "mixed byte orders with an index carried over from a segment of the other order"),
  "C19-3": ("C19", "chunk size of a channel in a segment taken from a shared helper that no longer checks has_data",
            "interleaved or DAQmx segment that lists the channel with a 'no data' index between two segments of a window: the whole segment is fetched"),
+ "C04-3": ("C04", "ObjectListKey.__eq__ compares the (order-independent) hashes and the lengths instead of the paths",
+           "same objects in a different order in two segments, different value counts, lazy windows / indices"),
+ "C07-3": ("C07", "TdmsSegment.raw_data_index writes the 'no data' marker for channels whose array is empty",
+           "a typed channel that only ever receives zero-length arrays: its type never reaches the file"),
+ "C12-3": ("C12", "TimestampDataReceiver.append_data positional structured assignment (fourth independent find)",
+           "big-endian timestamp channel read raw or defragmented"),
+ "C13-3": ("C13", "TdmsFile._read_file takes a channel's group properties from the dictionary it is still filling in file order",
+           "scaling defined on the group, group object listed after the channel (or only in a later segment)"),
+ "C16-3": ("C16", "_components_to_path collapses already doubled quotes before doubling quotes",
+           "a name containing two adjacent apostrophes: encodes like the name with one, channels merge"),
+ "C17-3": ("C17", "RtdScaling.scale decides the branch before lead-wire compensation (as C17-1)",
+           "2-/3-wire RTD with lead resistance at a negative temperature near 0"),
+ "C18-3": ("C18", "type K exponential term skipped when np.any(temperature < 0)",
+           "one array mixing negative and non-negative temperatures (type K, temperature -> voltage)"),
+ "C20-3": ("C20", "read_metadata closes the index stream whether or not the reader opened it (third find)",
+           "caller-supplied index stream"),
  "C20-1": ("C20", "read_metadata closes the index stream whether or not the reader opened it",
            "a caller-supplied stream holding a .tdms_index (TDSh) file"),
 }
